@@ -32,7 +32,7 @@ import (
 	"verifharness/vh"
 )
 
-var pass = flag.String("pass", "hist", "seq|hist|block|blackhole|armpark")
+var pass = flag.String("pass", "hist", "seq|hist|block|blackhole|armpark|acceptrace")
 
 const closeSlack = time.Second
 
@@ -491,6 +491,83 @@ func armParkPass(c *vh.Ctx) {
 	}
 }
 
+// acceptRacePass: a passive connection with no peer; a peer's connect is dequeued by Accept just
+// before / from inside / just after the listener's Close that the application's Close() causes.
+// Whatever the instant, once Close() has returned every connection the harness's listener ever
+// handed to the library has been closed by the library (the peer end reads EOF), no goroutine is
+// left, a second Close is nil and a reopen works. HSMS-SS and SECS-I.
+func acceptRacePass(c *vh.Ctx) {
+	for _, s1 := range []bool{false, true} {
+		for _, mode := range []int{lc.RaceBeforeClose, lc.RaceAtClose, lc.RaceAfterClose} {
+			for rep := 0; rep < 3; rep++ {
+				cfg := lc.DefaultCfg()
+				mk := lc.New
+				if s1 {
+					mk = lc.NewSecs1
+				}
+				r, err := mk(false, cfg, func(int) lc.Plan { return lc.Normal() })
+				if err != nil {
+					c.Fail("C10: cannot build a connection", err.Error())
+					continue
+				}
+				tag := fmt.Sprintf("acceptrace:%s", map[int]string{1: "before-close", 2: "at-close", 3: "after-close"}[mode])
+				if o := r.Open(false, 2*time.Second); o.Class != "ok" {
+					c.Fail("C10: Open(background) failed", tag+" "+rname(r)+": "+o.Class)
+					continue
+				}
+				time.Sleep(time.Duration(rep) * time.Millisecond) // the accept goroutine is parked in Accept
+				peerEnd := r.ArmRace(mode, time.Second)
+				if peerEnd == nil {
+					c.Fail("C10: harness: could not arm the accept race", tag+" "+rname(r))
+				}
+				res := r.Close()
+				checkCloseLatency(c, r, res, tag)
+				if res.Class != "ok" {
+					c.Fail("C10: Close of a listening connection failed", tag+" "+rname(r)+": "+res.Class)
+				}
+				taken := !r.RaceLeft()
+				if taken && peerEnd != nil {
+					// the library accepted the peer's connection: it must have closed it by now
+					_ = peerEnd.SetReadDeadline(time.Now().Add(time.Second))
+					buf := make([]byte, 64)
+					eof := false
+					for i := 0; i < 64 && !eof; i++ {
+						if _, err := peerEnd.Read(buf); err != nil {
+							ne, isNet := err.(interface{ Timeout() bool })
+							eof = !(isNet && ne.Timeout())
+						}
+					}
+					if !eof {
+						c.Fail("C10: a connection accepted around Close was left open (the peer sees neither EOF nor reset)", tag+" "+rname(r))
+					}
+				}
+				if peerEnd != nil {
+					_ = peerEnd.Close()
+				}
+				if res.Goroutines != 0 || r.OpenHandles() != 0 {
+					c.Fail("C10: socket / goroutine left after Close raced an Accept", fmt.Sprintf("%s %s gor=%d handles=%d taken=%v", tag, rname(r), res.Goroutines, r.OpenHandles(), taken))
+				}
+				if r2 := r.Close(); r2.Class != "ok" {
+					c.Fail("C10: second Close is not nil", tag+" "+rname(r)+": "+r2.Class)
+				}
+				// reopen: a peer connects, Selected, close
+				if o := r.Open(false, 2*time.Second); o.Class != "ok" {
+					c.Fail("C10: reopen after Close failed", tag+" "+rname(r)+": "+o.Class)
+				} else {
+					if r.PeerConnect(2*time.Second) == nil || !r.WaitState(hsms.SelectedState, 3*time.Second) {
+						c.Fail("C10: reopened connection did not reach Selected", tag+" "+rname(r))
+					}
+				}
+				res3 := r.Close()
+				checkCloseLatency(c, r, res3, tag)
+				r.Shutdown()
+				c.Count(fmt.Sprintf("acceptrace/%s/taken=%v", rname(r), taken))
+				judge(c, r, tag)
+			}
+		}
+	}
+}
+
 func seqPass(c *vh.Ctx) {
 	ensureOpenPass(c)
 	for i := 0; i < c.N; i++ {
@@ -792,6 +869,8 @@ func main() {
 		blackholePass(c)
 	case "armpark":
 		armParkPass(c)
+	case "acceptrace":
+		acceptRacePass(c)
 	default:
 		c.Note("unknown pass " + *pass)
 	}
